@@ -79,6 +79,46 @@ theorem compile_maxEval (cs : List Crit) (c : Compiled) (h : compile cs = some c
     c.maxEval = some n ↔ Crit.numEval n ∈ cs := by
   rw [compileFrom_maxEval {} c cs h n]; simp
 
+theorem compileFrom_target (c c' : Compiled) (cs : List Crit) (h : compileFrom c cs = some c') (t : F64) :
+    c'.target = some t ↔ (c.target = some t ∨ Crit.target t ∈ cs) := by
+  induction cs generalizing c with
+  | nil => simp [compileFrom] at h; subst h; simp
+  | cons x xs ih =>
+    simp only [compileFrom] at h
+    cases hx : compileStep c x with
+    | none => simp [hx] at h
+    | some c1 =>
+      simp only [hx] at h
+      rw [ih c1 h]
+      cases x <;> simp only [compileStep] at hx <;> split at hx <;> simp at hx <;> subst hx <;> simp_all
+      constructor
+      · rintro (h | h) <;> simp_all
+      · rintro (h | h) <;> simp_all
+
+theorem compile_target (cs : List Crit) (c : Compiled) (h : compile cs = some c) (t : F64) :
+    c.target = some t ↔ Crit.target t ∈ cs := by
+  rw [compileFrom_target {} c cs h t]; simp
+
+theorem compileFrom_after (c c' : Compiled) (cs : List Crit) (h : compileFrom c cs = some c') (d : Nat) :
+    c'.after = some d ↔ (c.after = some d ∨ Crit.after d ∈ cs) := by
+  induction cs generalizing c with
+  | nil => simp [compileFrom] at h; subst h; simp
+  | cons x xs ih =>
+    simp only [compileFrom] at h
+    cases hx : compileStep c x with
+    | none => simp [hx] at h
+    | some c1 =>
+      simp only [hx] at h
+      rw [ih c1 h]
+      cases x <;> simp only [compileStep] at hx <;> split at hx <;> simp at hx <;> subst hx <;> simp_all
+      constructor
+      · rintro (h | h) <;> simp_all
+      · rintro (h | h) <;> simp_all
+
+theorem compile_after (cs : List Crit) (c : Compiled) (h : compile cs = some c) (d : Nat) :
+    c.after = some d ↔ Crit.after d ∈ cs := by
+  rw [compileFrom_after {} c cs h d]; simp
+
 /-! ### async_launch: one abort request -/
 
 def nAbortReq (l : List LAct) : Nat := (l.filter (· == .abortReq)).length
